@@ -319,3 +319,76 @@ def run(project, chk):
                         chk.check(ok, "Q4", main.short, norm_text(c), project.loc(m, c), "the output is serialize(parse_stylesheet(<text read from this input file>))", how=f"origin: {oshow(o)[:160]}",
                                   message=f"what is written is {oshow(o)[:200]}, not the serialisation of this file's own parsed rules")
     chk.floor("output write sites in main", n_out, 1)
+
+    descent_and_discovery(project, chk)
+
+
+GROUP_RULES = {"media", "supports", "layer", "container", "document", "-moz-document", "scope", "starting-style"}
+
+
+def descent_and_discovery(project, chk):
+    chk.rule("Q5", "an at-rule's block is re-parsed as a list of rules (and written back) only when the at-rule is one whose block *is* a list of rules "
+                   "(@media / @supports ...): @font-face, @page, @keyframes and unknown at-rules pass through as parsed")
+    pnr = project.func(f"{CLI}.process_nodes_recursive")
+    cfg = build_cfg(pnr.node)
+    G = guard_states(cfg)
+    sc = Scope(project, pnr)
+    from sa.guards import common_literals
+    n = 0
+    for node in cfg.nodes:
+        for e in node_exprs(node):
+            for c in ast.walk(e):
+                if not (isinstance(c, ast.Call) and (sc.resolve_call(c) or "").endswith("parse_rule_list") and c.args):
+                    continue
+                a = c.args[0]
+                if not (isinstance(a, ast.Attribute) and a.attr == "content"):
+                    continue
+                n += 1
+                owner = norm_text(a.value)
+                good = None
+                lits = common_literals(G.get(node.id))
+                for (t, v) in lits:
+                    try:
+                        te = ast.parse(t, mode="eval").body
+                    except SyntaxError:
+                        continue
+                    if not (isinstance(te, ast.Compare) and len(te.ops) == 1):
+                        continue
+                    left = norm_text(te.left)
+                    if not (left.startswith(owner + ".") and "at_keyword" in left):
+                        continue
+                    op, rhs = te.ops[0], te.comparators[0]
+                    pos = (isinstance(op, (ast.In, ast.Eq)) and v) or (isinstance(op, (ast.NotIn, ast.NotEq)) and not v)
+                    if not pos:
+                        continue
+                    vals = [rhs] if isinstance(rhs, ast.Constant) else list(getattr(rhs, "elts", []) or [])
+                    if isinstance(rhs, ast.Name):
+                        from sa.formula import module_value
+                        try:
+                            mv = module_value(project, pnr.module, rhs.id)
+                        except Exception:
+                            mv = None
+                        vals = list(getattr(mv, "elts", []) or []) if mv is not None else []
+                    names = {x.value for x in vals if isinstance(x, ast.Constant) and isinstance(x.value, str)}
+                    if names and len(names) == len(vals):
+                        good = names
+                ok = good is not None and good <= GROUP_RULES
+                chk.check(ok, "Q5", pnr.short, norm_text(c), project.loc(pnr.module, c), f"{owner}.content is re-parsed as rules only under a test that {owner} is a conditional group rule",
+                          how=f"guard on every path: at-keyword in {sorted(good) if good else None}",
+                          message=(f"{owner}.content is parsed as a list of rules and written back for at-rules other than conditional group rules "
+                                   f"({'guard admits ' + str(sorted(good - GROUP_RULES)) if good else 'no at-keyword test dominates the call'}): the declarations of @font-face / @page / @keyframes blocks are re-parsed as rules and rewritten"))
+    chk.floor("re-parses of an at-rule's content as rules", n, 1)
+
+    chk.rule("Q6", "directory discovery never yields the command's own outputs: otherwise a second run writes <name>_cm_cm.css next to the inputs (something besides <name>_cm.css is created)")
+    from sa.report import Check as _Check
+    import checks.C18 as _c18
+    sub = _Check("C18", chk.tier, quiet=True)
+    try:
+        _c18.run(project, sub)
+    except AnalysisError:
+        pass
+    hits = [f for f in sub.findings if f.rule == "I3" and "own outputs" in f.message]
+    for f in hits:
+        chk.fail("Q6", f.function, f.construct, f.loc, f.message)
+    if not hits:
+        chk.ok("Q6", "cli.main.get_css_files", "directory-mode yields are under the `_cm` output filter", "C18 I3 (writer's infix == reader's filter)")
